@@ -607,25 +607,51 @@ def bits_eval(fx, e, env, depth=5):
         tag = str(e[1])
         if not e[2] and "::Player::" in tag:
             return {v["name"]: v["discr"] for v in fx.adt("player::Player")["variants"]}.get(tag.split("::")[-1])
+        if not e[2] and tag.count("::") >= 2 and not tag.startswith(("closure:", "std::", "core::")):
+            # a variant of a field-less in-crate enum evaluates to its discriminant
+            try:
+                ad = fx.adt(tag.rsplit("::", 1)[0])
+            except Exception:
+                ad = None
+            if ad and ad.get("variants") and all(not v.get("fields") for v in ad["variants"]):
+                return {v["name"]: v["discr"] for v in ad["variants"]}.get(tag.split("::")[-1])
+            return None
         if len(e[2]) == 1 and tag.endswith("Bitboard::Bitboard"):
             return bits_eval(fx, e[2][0], env, depth)
+        segs = tag.split("::")
+        if len(e[2]) == 1 and len(segs) >= 2 and segs[-1] == segs[-2] and "chess::" in tag:
+            return bits_eval(fx, e[2][0], env, depth)  # a one-field wrapper struct (Square(u8)) is its field
         return None
     if k == "field":
+        v = bits_eval(fx, e[1], env, depth)
+        if isinstance(v, tuple):
+            return v[int(e[2])] if str(e[2]).isdigit() and int(e[2]) < len(v) else None
+        if isinstance(v, Opt):
+            return v.val if e[2] == "0" and v.some else None
         if e[2] == "0":
-            return bits_eval(fx, e[1], env, depth)
+            return v
         return None
     if k == "cast":
-        return bits_eval(fx, e[1], env, depth)
+        v = bits_eval(fx, e[1], env, depth)
+        return v if isinstance(v, int) else None
     if k == "discr":
-        return bits_eval(fx, e[1], env, depth)
+        v = bits_eval(fx, e[1], env, depth)
+        if isinstance(v, Opt):
+            return int(v.some)
+        return v if isinstance(v, int) else None
+    if k == "call" and isinstance(e[1], str) and e[1].endswith(("Option::is_none", "Option::is_some")) and len(e[2]) == 1:
+        v = bits_eval(fx, e[2][0], env, depth)
+        if not isinstance(v, Opt):
+            return None
+        return int(v.some == e[1].endswith("is_some"))
     if k == "unop":
         a = bits_eval(fx, e[2], env, depth)
-        if a is None:
+        if not isinstance(a, int):
             return None
         return (~a) & M64 if e[1] == "Not" else None
     if k == "binop":
         a, b = bits_eval(fx, e[2], env, depth), bits_eval(fx, e[3], env, depth)
-        if a is None or b is None:
+        if not isinstance(a, int) or not isinstance(b, int):
             return None
         op = e[1].replace("WithOverflow", "")
         if op == "Shl":
@@ -645,8 +671,30 @@ def bits_eval(fx, e, env, depth=5):
         args = [bits_eval(fx, a, env, depth) for a in e[2]]
         if any(a is None for a in args):
             return None
-        cenv = {i + 1: a for i, a in enumerate(args)}
-        for conds, ret, last in decision_paths(cb, 64, track_op_assign=True):
+        return eval_body(fx, cb, {i + 1: a for i, a in enumerate(args)}, depth)
+    return None
+
+
+def _is_arg(e, args):
+    while isinstance(e, tuple) and e and e[0] in ("ref", "deref"):
+        e = e[1]
+    return isinstance(e, tuple) and len(e) >= 2 and e[0] == "arg" and e[1] in args
+
+
+class Opt:
+    """an Option value handed to bits_eval through its environment"""
+    def __init__(self, some, val=None):
+        self.some, self.val = some, val
+
+
+def eval_body(fx, cb, cenv, depth=5):
+    """value returned by the loop-free body `cb` on the argument values `cenv` ({param index: value}); None when outside
+    the fragment bits_eval evaluates"""
+    cache = fx.__dict__.setdefault("_eval_paths", {})
+    if cb.name not in cache:
+        cache[cb.name] = decision_paths(cb, 64, track_op_assign=True)
+    if True:
+        for conds, ret, last in cache[cb.name]:
             if ret is None:
                 continue
             feasible = True
@@ -754,7 +802,32 @@ def rule_pack(fx, rep):
         b = fx.one("PhasedEval::endgame")
         rep.violation("C16-PACK", "C16-PACK/decode", f"packed evaluation: new{bad_ex[0]} + new{bad_ex[1]} decodes to (midgame, endgame) = {bad_ex[2]}, expected {(bad_ex[0][0] + bad_ex[1][0], bad_ex[0][1] + bad_ex[1][1])}: "
                       "the blend then uses wrong halves (off by one whenever the midgame half is negative), which also breaks colour symmetry", {"fn": b.name, "file": b.file, "line": b.line})
-    rep.rule("C16-PACK", n, 20, ok, "pack / unpack of the two-phase word agree on sample values, also after addition")
+    # the packed word is a sum m + (e << 16): + - and scaling by an integer act on both halves at once, a division, remainder or
+    # shift of the whole word does not (an odd endgame half leaks half a unit = 32768 into the midgame half)
+    for b in fx.bodies.values():
+        if b.kind not in ("Fn", "AssocFn") or not b.locals[0]["ty"].endswith("phased_eval::PhasedEval") or b.n > 60:
+            continue
+        pe_args = [i for i in range(1, b.arg_count + 1) if b.locals[i]["ty"].lstrip("&mut ").endswith("phased_eval::PhasedEval")]
+        if not pe_args:
+            continue
+        for conds, ret, last in decision_paths(b, 16):
+            if ret is None:
+                continue
+            for node in walk(ret):
+                if isinstance(node, tuple) and node and node[0] == "binop" and node[1].replace("WithOverflow", "") in ("Div", "Rem", "Shr") \
+                        and any(isinstance(x, tuple) and x and x[0] == "field" and x[2] == "0" and _is_arg(x[1], pe_args) for x in walk(node[2])) \
+                        and node[3] != ("const", 1):
+                    n += 1
+                    rep.obligation(False)
+                    ok = False
+                    rep.violation("C16-PACK", f"C16-PACK/word-op/{norm(b.name).split('::')[-1]}", f"`{b.name}` builds a packed two-phase value by applying `{node[1]}` to the whole packed word of its argument: "
+                                  "the word is midgame + (endgame << 16), so only + - and integer scaling act on the halves separately; a division or shift of the word moves part of the endgame half into the "
+                                  "midgame half (an odd endgame half leaks 32768), the blended evaluation is wrong and no longer colour-symmetric", {"fn": b.name, "file": b.file, "line": b.line})
+                    break
+            else:
+                continue
+            break
+    rep.rule("C16-PACK", n, 20, ok, "pack / unpack of the two-phase word agree on sample values, also after addition; no division / shift of the whole packed word")
 
 
 def colour_equivariance(fx):
@@ -1034,6 +1107,9 @@ PH = "src/engine/eval/phased_eval.rs"
 PS = "src/engine/eval/piece_square_tables.rs"
 PA = "src/engine/eval/params.rs"
 MUTANTS = [
+    {"name": "evaluation halved when few pieces are left through a Div<i32> on the packed word (shape of seed C16-7b)", "expect": "C16-PACK/word-op/div",
+     "edits": [("src/engine/eval/phased_eval.rs", "impl std::ops::Neg for PhasedEval {", "impl std::ops::Div<i32> for PhasedEval {\n    type Output = Self;\n\n    fn div(self, rhs: i32) -> Self::Output {\n        Self(self.0 / rhs)\n    }\n}\n\nimpl std::ops::Neg for PhasedEval {"),
+               ("src/engine/eval/mod.rs", "    eval.for_phase(game.incremental_eval.phase_value)\n}", "    let eval = if game.incremental_eval.phase_value == 2 { eval / 2 } else { eval };\n\n    eval.for_phase(game.incremental_eval.phase_value)\n}")]},
     {"name": "lazy evaluation when White is far ahead (seed C16-7a)", "expect": "C16-MIRROR/top/terms",
      "edits": [("src/engine/eval/mod.rs", "    let eval = game.incremental_eval.piece_square_tables\n        + material::eval::<TRACE>(game, trace)\n", "    let material_eval = game.incremental_eval.piece_square_tables + material::eval::<TRACE>(game, trace);\n    if !TRACE {\n        let lazy_eval = material_eval.for_phase(game.incremental_eval.phase_value);\n        if lazy_eval > WhiteEval(1800) {\n            return lazy_eval;\n        }\n    }\n    let eval = material_eval\n")]},
     {"name": "passed-pawn bonus once per file, first pawn in scan order (seed C16-5a)", "expect": "C16-MIRROR/order",
